@@ -1763,14 +1763,19 @@ func (r *Raft) takeSnapshot() {
 	if err := r.fsm.Snapshot(snapshot); err != nil {
 		r.logger.Fatalf("failed to take snapshot of state machine: error = %v", err)
 	}
-	if err := snapshot.Close(); err != nil {
-		r.logger.Fatalf("failed to close snapshot file: error = %v", err)
-	}
 	r.mu.Lock()
 
 	// It's possible a snapshot was installed and the log was compacted while the lock was released.
+	// The snapshot that was just written is obsolete then and must not be published: it would be
+	// taken for the most recent one although the log no longer connects to it.
 	if lastAppliedEntry.Index <= r.lastIncludedIndex {
+		if err := snapshot.Discard(); err != nil {
+			r.logger.Fatalf("failed to discard snapshot file: error = %v", err)
+		}
 		return
+	}
+	if err := snapshot.Close(); err != nil {
+		r.logger.Fatalf("failed to close snapshot file: error = %v", err)
 	}
 
 	// Compact the log.
